@@ -1,4 +1,284 @@
-pub fn main(_args: &[String]) -> i32 {
-    eprintln!("engine not built yet");
-    2
+//! C22: boundary constraints.  Scenarios (spec/air/Boundary.tla) carry a valid assertion set with, for
+//! every assertion, its asserted steps / points / values, its divisor's values on the coset and at
+//! out-of-domain points, and C_a(x, state) at out-of-domain points.  For each permutation of the
+//! assertion lists the real `BoundaryConstraints::new` is called; every real constraint is matched to
+//! the assertion with the same column whose steps are the zero set (over the whole trace domain) of
+//! the constraint's group divisor.  Plain values are compared here; what depends on the coefficient
+//! assignment (which the property does not fix) is REPORTED (`obs` lines: assignment per permutation,
+//! group members and group values) and validated by TLC (spec/air/TraceBoundary.tla).
+use serde_json::{json, Value};
+use wfcommon::util::{catch, read_ndjson, usizes_of, Out};
+use winter_air::{Assertion, BoundaryConstraintGroup, BoundaryConstraints};
+use winter_math::{ExtensionOf, FieldElement, StarkField};
+
+use crate::{
+    elem::{json_of, usize_of, vec_of, Elem},
+    toyair::{context, Deg},
+    with_field,
+};
+
+struct Rep {
+    calls: usize,
+    bad: Vec<Value>,
+}
+
+impl Rep {
+    fn bad(&mut self, call: &str, what: &str, extra: Value) {
+        let mut d = json!({"call": call, "what": what});
+        if let (Some(o), Some(e)) = (d.as_object_mut(), extra.as_object()) {
+            for (k, v) in e {
+                o.insert(k.clone(), v.clone());
+            }
+        }
+        self.bad.push(d);
+    }
+}
+
+fn mk<F: FieldElement + Elem>(row: &Value) -> Assertion<F> {
+    let a = &row["a"];
+    let col = usize_of(&a["col"]);
+    let first = usize_of(&a["first"]);
+    let stride = usize_of(&a["stride"]);
+    let vals: Vec<F> = vec_of(&a["vals"]);
+    match a["k"].as_str().unwrap_or("") {
+        "single" => Assertion::single(col, first, vals[0]),
+        "periodic" => Assertion::periodic(col, first, stride, vals[0]),
+        "sequence" => Assertion::sequence(col, first, stride, vals),
+        k => {
+            eprintln!("scenario: unknown assertion kind {k}");
+            std::process::exit(2)
+        },
+    }
+}
+
+fn shape(row: &Value) -> Value {
+    json!({"k": row["a"]["k"], "col": row["a"]["col"], "first": row["a"]["first"], "stride": row["a"]["stride"],
+           "nvals": row["a"]["vals"].as_array().map(|v| v.len()).unwrap_or(0)})
+}
+
+/// Values of the trace cell tried at an asserted point.
+fn candidates<F: FieldElement + Elem, E: FieldElement + From<F>>(p: usize, want: F, j: usize) -> Vec<E> {
+    let w = E::from(want);
+    let mut v = vec![w, w + E::ONE, w - E::ONE, E::ZERO, E::ONE, w + w, -w, w + E::from(3u32 + j as u32)];
+    if p == 97 {
+        // every element of the base field
+        v.extend((0..97u32).map(E::from));
+    }
+    v
+}
+
+/// Matches the real constraints of one segment to the scenario rows; returns for every row the
+/// coefficient index it was given (None if unmatched), the groups as lists of row indexes with their
+/// values at the out-of-domain points, and runs the value comparisons when `detailed`.
+#[allow(clippy::too_many_arguments)]
+fn check_groups<B, F, E>(
+    rep: &mut Rep,
+    seg: &str,
+    p: usize,
+    groups: &[BoundaryConstraintGroup<F, E>],
+    rows: &[Value],
+    tdom: &[B],
+    coset: &[B],
+    ood: &[E],
+    state: &[E],
+    cc: &[E],
+    ext_probe: &[E],
+    detailed: bool,
+) -> (Vec<Option<usize>>, Vec<Value>, bool)
+where
+    B: StarkField + Elem,
+    F: FieldElement<BaseField = B> + Elem,
+    E: FieldElement<BaseField = B> + ExtensionOf<F> + Elem,
+{
+    let mut assign: Vec<Option<usize>> = vec![None; rows.len()];
+    let mut out_groups = vec![];
+    let mut complete = true;
+    let steps: Vec<Vec<usize>> = rows.iter().map(|r| usizes_of(&r["steps"])).collect();
+    for g in groups {
+        let call = format!("BoundaryConstraints::new({seg}).group");
+        // zero set of the group's divisor over the whole trace domain
+        rep.calls += tdom.len();
+        let zeros: Vec<usize> = (0..tdom.len()).filter(|&s| g.divisor().evaluate_at(tdom[s]) == B::ZERO).collect();
+        let mut members = vec![];
+        for c in g.constraints() {
+            let found: Vec<usize> = (0..rows.len())
+                .filter(|&i| usize_of(&rows[i]["a"]["col"]) == c.column() && steps[i] == zeros)
+                .collect();
+            if found.len() != 1 || assign[found[0]].is_some() {
+                complete = false;
+                rep.bad(&call, "a constraint whose column and divisor zero set match no assertion of the set",
+                    json!({"column": c.column(), "divisor_zero_steps": zeros, "candidates": found.len()}));
+                continue;
+            }
+            let i = found[0];
+            members.push(i);
+            match cc.iter().position(|x| x == c.cc()) {
+                Some(k) => assign[i] = Some(k),
+                None => {
+                    complete = false;
+                    rep.bad(&call, "a constraint carries a coefficient that was not supplied",
+                        json!({"assertion": shape(&rows[i]), "got": c.cc().to_json()}));
+                    continue;
+                },
+            }
+            if !detailed {
+                continue;
+            }
+            let row = &rows[i];
+            // divisor: degree, values on the coset and at out-of-domain points
+            rep.calls += 1;
+            if g.divisor().degree() != steps[i].len() {
+                rep.bad("divisor.degree", "value", json!({"assertion": shape(row), "expected": steps[i].len(), "got": g.divisor().degree()}));
+            }
+            let zc: Vec<B> = vec_of(&row["zc"]);
+            for (k, x) in coset.iter().enumerate() {
+                rep.calls += 1;
+                let got = g.divisor().evaluate_at(*x);
+                if got != zc[k] {
+                    rep.bad("divisor.evaluate_at", "value on the coset",
+                        json!({"assertion": shape(row), "x": x.to_json(), "expected": zc[k].to_json(), "got": got.to_json()}));
+                    break;
+                }
+            }
+            let zx: Vec<E> = vec_of(&row["zx"]);
+            let num: Vec<E> = vec_of(&row["num"]);
+            for (t, x) in ood.iter().enumerate() {
+                rep.calls += 2;
+                let got = g.divisor().evaluate_at(*x);
+                if got != zx[t] {
+                    rep.bad("divisor.evaluate_at", "value at an out-of-domain point",
+                        json!({"assertion": shape(row), "x": x.to_json(), "expected": zx[t].to_json(), "got": got.to_json()}));
+                }
+                let got = c.evaluate_at(*x, state[c.column()]);
+                if got != num[t] {
+                    rep.bad("BoundaryConstraint::evaluate_at", "value at an out-of-domain point",
+                        json!({"assertion": shape(row), "x": x.to_json(), "trace_value": state[c.column()].to_json(),
+                               "expected": num[t].to_json(), "got": got.to_json()}));
+                }
+            }
+            // vanishing exactly on the asserted value at every asserted point
+            let xs: Vec<B> = vec_of(&row["xs"]);
+            let want: Vec<F> = vec_of(&row["want"]);
+            for j in 0..xs.len() {
+                let x = E::from(xs[j]);
+                let w = E::from(want[j]);
+                let mut cands = candidates::<F, E>(p, want[j], j);
+                cands.extend(ext_probe.iter().map(|e| w + *e));
+                for v in cands {
+                    rep.calls += 1;
+                    let got = c.evaluate_at(x, v);
+                    let zero = got == E::ZERO;
+                    if zero != (v == w) {
+                        let what = if v == w { "does not vanish on the asserted value" } else { "vanishes on a value that was not asserted" };
+                        rep.bad("BoundaryConstraint::evaluate_at", what,
+                            json!({"assertion": shape(row), "step": steps[i][j], "x": xs[j].to_json(), "asserted": want[j].to_json(),
+                                   "trace_value": v.to_json(), "got": got.to_json()}));
+                        break;
+                    }
+                }
+            }
+        }
+        if detailed {
+            let vals: Vec<E> = ood.iter().map(|x| g.evaluate_at(state, *x)).collect();
+            rep.calls += vals.len();
+            out_groups.push(json!({"seg": seg, "members": members, "vals": json_of(&vals)}));
+        }
+    }
+    for (i, a) in assign.iter().enumerate() {
+        if a.is_none() && complete {
+            complete = false;
+            rep.bad(&format!("BoundaryConstraints::new({seg})"), "an assertion without a constraint", json!({"assertion": shape(&rows[i])}));
+        }
+    }
+    (assign, out_groups, complete)
+}
+
+fn run<B, E>(sc: &Value, rep: &mut Rep) -> Value
+where
+    B: StarkField + Elem,
+    E: FieldElement<BaseField = B> + Elem,
+{
+    let p = usize_of(&sc["P"]);
+    let len = usize_of(&sc["L"]);
+    let (mw, aw) = (usize_of(&sc["mw"]), usize_of(&sc["aw"]));
+    let mrows = sc["main"].as_array().unwrap();
+    let arows = sc["aux"].as_array().unwrap();
+    let cc: Vec<E> = vec_of(&sc["cc"]);
+    let tdom: Vec<B> = vec_of(&sc["tdom"]);
+    let coset: Vec<B> = vec_of(&sc["coset"]);
+    let ood: Vec<E> = vec_of(&sc["ood"]);
+    let mstate: Vec<E> = vec_of(&sc["mstate"]);
+    let astate: Vec<E> = vec_of(&sc["astate"]);
+    // non-zero elements of E outside the base field (none when E is the base field)
+    let ext_probe: Vec<E> = if E::EXTENSION_DEGREE > 1 {
+        cc.iter().chain(ood.iter()).map(|e| *e - E::from(e.base_element(0))).filter(|e| *e != E::ZERO).take(3).collect()
+    } else {
+        vec![]
+    };
+    let mperms: Vec<Vec<usize>> = sc["mperms"].as_array().unwrap().iter().map(usizes_of).collect();
+    let aperms: Vec<Vec<usize>> = sc["aperms"].as_array().unwrap().iter().map(usizes_of).collect();
+    let nperm = mperms.len().max(aperms.len());
+    let one = [Deg { base: 1, cycles: vec![] }];
+    let ctx = match catch(|| context::<B>(len, mw, aw, &one, if aw > 0 { &one } else { &[] }, mrows.len(), arows.len(), 2)) {
+        Ok(c) => c,
+        Err(e) => {
+            eprintln!("boundary: cannot build the context of a scenario: {e}");
+            std::process::exit(2)
+        },
+    };
+    let mut assigns = vec![];
+    let mut groups = vec![];
+    let mut complete = true;
+    for q in 0..nperm {
+        let mp = &mperms[q % mperms.len()];
+        let ap = &aperms[q % aperms.len()];
+        let main: Vec<Assertion<B>> = mp.iter().map(|i| mk::<B>(&mrows[i - 1])).collect();
+        let aux: Vec<Assertion<E>> = ap.iter().map(|i| mk::<E>(&arows[i - 1])).collect();
+        rep.calls += 1;
+        let bc = match catch(|| BoundaryConstraints::<E>::new(&ctx, main, aux, &cc)) {
+            Ok(b) => b,
+            Err(e) => {
+                rep.bad("BoundaryConstraints::new", "panicked on a valid assertion set", json!({"panic": e, "main_order": mp, "aux_order": ap}));
+                complete = false;
+                continue;
+            },
+        };
+        let (am, gm, c1) = check_groups::<B, B, E>(rep, "main", p, bc.main_constraints(), mrows, &tdom, &coset, &ood, &mstate, &cc, &ext_probe, q == 0);
+        let (aa, ga, c2) = check_groups::<B, E, E>(rep, "aux", p, bc.aux_constraints(), arows, &tdom, &coset, &ood, &astate, &cc, &ext_probe, q == 0);
+        complete &= c1 && c2;
+        // 1-based coefficient index per assertion, main rows then auxiliary rows (0 = unmatched)
+        let a: Vec<usize> = am.iter().chain(aa.iter()).map(|x| x.map(|k| k + 1).unwrap_or(0)).collect();
+        assigns.push(a);
+        if q == 0 {
+            for mut g in gm.into_iter().chain(ga.into_iter()) {
+                // members as 1-based global indexes (main rows first)
+                let off = if g["seg"] == "aux" { mrows.len() } else { 0 };
+                let m: Vec<usize> = usizes_of(&g["members"]).iter().map(|i| i + off + 1).collect();
+                g["members"] = json!(m);
+                groups.push(g);
+            }
+        }
+    }
+    json!({"complete": complete, "assign": assigns, "groups": groups})
+}
+
+pub fn main(args: &[String]) -> i32 {
+    let scenarios = read_ndjson(&args[0]);
+    let mut out = Out::new();
+    let (mut calls, mut bad) = (0usize, 0usize);
+    for (i, sc) in scenarios.iter().enumerate() {
+        let p = usize_of(&sc["P"]);
+        let d = usize_of(&sc["d"]);
+        let mut rep = Rep { calls: 0, bad: vec![] };
+        let obs = with_field!(p, d, run(sc, &mut rep));
+        calls += rep.calls;
+        for d in rep.bad {
+            bad += 1;
+            out.emit(&json!({"i": i, "detail": d}));
+        }
+        out.emit(&json!({"i": i, "obs": obs}));
+    }
+    out.emit(&json!({"summary": true, "scenarios": scenarios.len(), "calls": calls, "mismatches": bad}));
+    out.flush();
+    0
 }
